@@ -125,25 +125,24 @@ def signBit (w : UInt64) : Bool := w.toNat / 2 ^ 63 % 2 == 1
 /-- `-x` of a double: the sign bit flips (also of a zero or a NaN) -/
 def negBits (w : UInt64) : UInt64 := UInt64.ofNat ((w.toNat + 2 ^ 63) % 2 ^ 64)
 
+/-- a natural number of `len > 53` bits rounded to 53 bits, half to even: the 53-bit mantissa
+    and the exponent of its leading bit -/
+def rneParts (n len : Nat) : Nat × Nat :=
+  let sh := len - 53
+  let q := n / 2 ^ sh
+  let r := n % 2 ^ sh
+  let half := 2 ^ (sh - 1)
+  let q1 := if r > half || (r == half && q % 2 == 1) then q + 1 else q
+  if q1 == 2 ^ 53 then (2 ^ 52, sh + 1 + 52) else (q1, sh + 52)
+
 /-- `float(n)` for a natural number, without the sign bit: round to 53 bits, half to even;
     `OverflowError` when the rounded value needs an exponent above 1023 -/
 def ofNatRNE (n : Nat) : Except Err Nat :=
   if n == 0 then .ok 0
-  else
-    let len := n.log2 + 1
-    if len ≤ 53 then
-      .ok ((len - 1 + 1023) * 2 ^ 52 + (n * 2 ^ (53 - len) - 2 ^ 52))
-    else
-      let sh := len - 53
-      let q := n / 2 ^ sh
-      let r := n % 2 ^ sh
-      let half := 2 ^ (sh - 1)
-      let q1 := if r > half || (r == half && q % 2 == 1) then q + 1 else q
-      let q2 := if q1 == 2 ^ 53 then 2 ^ 52 else q1
-      let sh2 := if q1 == 2 ^ 53 then sh + 1 else sh
-      let e := sh2 + 52
-      if e > 1023 then .error .overflow
-      else .ok ((e + 1023) * 2 ^ 52 + (q2 - 2 ^ 52))
+  else if n.log2 + 1 ≤ 53 then
+    .ok ((n.log2 + 1023) * 2 ^ 52 + (n * 2 ^ (52 - n.log2) - 2 ^ 52))
+  else if (rneParts n (n.log2 + 1)).2 > 1023 then .error .overflow
+  else .ok (((rneParts n (n.log2 + 1)).2 + 1023) * 2 ^ 52 + ((rneParts n (n.log2 + 1)).1 - 2 ^ 52))
 
 /-- `float(i)` (`PyLong_AsDouble`) -/
 def toFloat (i : Int) : Except Err UInt64 :=
@@ -312,7 +311,7 @@ def numView : SVal → Option Ext
 /-- python `left == right` -/
 def pyEq : SVal → SVal → Bool
   | .null, .null => true
-  | .str s, .str t => s == t
+  | .str s, .str t => decide (s = t)
   | a, b =>
     match numView a, numView b with
     | some x, some y => Ext.eq x y
